@@ -224,6 +224,13 @@ def check(run, replay=None):
     nets = 40 if thorough else 8
     for k in range(nets):
         spec = netgen.gen_spec(rng, feat={"leaks": 0.0, "valves": 0.8, "pumps": 0.7, "cv": 0.6, "rules": 0.1, "pdd": 0.3})
+        if spec["pipes"]:
+            # directed: a twin of a pipe drawn in the opposite direction, closed by a time control during the run (the original keeps the part connected)
+            srcs_ = {r_["name"] for r_ in spec["reservoirs"]} | {t_["name"] for t_ in spec["tanks"]}
+            cand_ = [p_ for p_ in spec["pipes"] if not p_["cv"]] or spec["pipes"]
+            p1 = rng.choice([p_ for p_ in cand_ if p_["start"] in srcs_ or p_["end"] in srcs_] or cand_)      # preferably the pipe at a source (a bridge)
+            spec["pipes"].append(dict(p1, name="TWIN", start=p1["end"], end=p1["start"], cv=False, status="OPEN"))
+            spec["controls"].append({"kind": "time", "link": "TWIN", "time": spec["options"]["hydraulic_timestep"], "status": "CLOSED", "priority": 3})
         if k % 2 == 0:
             # directed: a short, wide check-valve bypass in parallel with an ordinary pipe, pointing against the flow
             p0 = rng.choice(spec["pipes"])
@@ -250,7 +257,14 @@ def check(run, replay=None):
             for ln, link in wn.links():
                 q, hs, he = float(Q.loc[t, ln]), float(H.loc[t, link.start_node_name]), float(H.loc[t, link.end_node_name])
                 st = int(ST.loc[t, ln])
-                iso = any((n in wn.junction_name_list and float(H.loc[t, n]) == 0.0 and float(PR.loc[t, n]) == 0.0) for n in (link.start_node_name, link.end_node_name))
+                zeroed = [(n in wn.junction_name_list and float(H.loc[t, n]) == 0.0 and float(PR.loc[t, n]) == 0.0) for n in (link.start_node_name, link.end_node_name)]
+                iso = any(zeroed)
+                if iso and not all(zeroed) and st != 0 and not (link.link_type == "Pipe" and link.check_valve) and link.link_type != "Pump" \
+                        and max(abs(hs), abs(he)) > 1.0:
+                    # an OPEN link joins a solved node to a junction reported as cut off (head and pressure zeroed): no law of an open link allows that
+                    run.violation("law_reported_open_link_to_a_zeroed_junction",
+                                  "%s is reported open (status %d, flow %.3g) between a solved node and a junction whose head and pressure are zeroed (%.3f / %.3f)" % (ln, st, q, hs, he),
+                                  input={"check": "reported", "spec": spec, "link": ln, "time": int(t), "q": q, "hs": hs, "he": he, "status": st})
                 desc = {"check": "reported", "spec": spec, "link": ln, "time": int(t), "q": q, "hs": hs, "he": he, "status": st}
                 if (link.link_type == "Pump" or (link.link_type == "Pipe" and link.check_valve)) and q < -QTOL:
                     run.violation("reverse_flow_" + ("pump" if link.link_type == "Pump" else "check_valve"),
